@@ -57,7 +57,9 @@ MANIFEST = {
             "properties are outside the statement (DESIGN 6). Theorem hypotheses not discharged for the pinned tree: "
             "vr_year_pad, vr_positional_none, vr_md20_default_ms, vr_bundle20_recheck (all fixed in /repo HEAD; detected per run). "
             "The oracle worker runs under the POSIX zone IST-5:30 and a PYTHONHASHSEED other than the driver's; an exception of "
-            "the oracle itself is reported per case (oracle-could-not-evaluate-the-case), never swallowed.",
+            "the oracle itself is reported per case (oracle-could-not-evaluate-the-case), never swallowed. Open known findings "
+            "(known_findings.d/C01.json): a MarkingDefinition whose definition OBJECT carries custom content cannot be read "
+            "back; a registered toplevel-property-extension given without extension_type does not read back equal (fix proposed).",
     "technique": "Coq proof over an executable model + correspondence run + property oracle on the implementation",
 }
 
@@ -636,7 +638,14 @@ def check(run):
         "process by an object of another combination; for the first option sets: the same text given to parse() as dictionary, "
         "text stream, bytes and with the version named; fp_serialize and str() against serialize(); serialize() repeated on "
         "the already serialized object with the same option names and other values against a never-serialized copy; the "
-        "pretty top-level order against the plain one; the oracle workers run under a non-UTC process time zone (IST-5:30); "
+        "pretty top-level order against the plain one; timestamps with 0-6 fraction digits; custom values of bounded sizes / "
+        "depths / number and text shapes (lists of 2..256 elements, 9..30 levels, 7.0, 2^53+1, 10^21, 401-digit integers, "
+        "quotes, non-BMP); a custom property at the nested object positions of the tables, also with the nested value as a "
+        "pre-built library object; a custom property nesting 63..600 levels in three shapes (an option set whose writer runs "
+        "out of stack there is not observed); parse() with interoperability=True, with the object itself, without the "
+        "allow_custom argument; serialize options given with their default values, positionally, through the module-level "
+        "function; a registered toplevel-property-extension given without extension_type; a failing call among the calls made "
+        "between two observations; the oracle workers run under a non-UTC process time zone (IST-5:30) and another hash seed; "
         "non-trivial = the object was created" % per_class)
     model_ok = sc.translate_and_build(run, "Props/C01.v")
     variants = sc.detect_variants(run)
